@@ -1,6 +1,8 @@
 import JunoModel.Common.Proto
 import JunoModel.C13.Model
 import JunoModel.C13.ModelTm
+import JunoModel.C13.ModelStop
+import JunoModel.C13.ModelSync
 /-!
 Line-protocol driver for the C13 model (`lake build c13drv`).
 
@@ -11,11 +13,15 @@ driver answers with what the MODEL of `driver.execute` / `walstore` / `driver.re
 Requests (numbers decimal; `nil` is the nil id):
   reset <chainHeight>            fresh node, empty log                        → ok
   live <action>*                 execute(isReplaying=false, actions)           → <committed 0|1> <effect>*
-  crash <k>                      lose the process after the first k effects of this epoch;
-                                 the node becomes the crashed node             → h=<start height> pruned=<n> log=<entry,…|->
+  crash <k|all>                  lose the process after the first k effects of this epoch (flushes with
+                                 nothing pending are not counted); the node becomes the crashed node
+                                                                               → h=<start height> pruned=<n> log=<entry,…|->
   rentry <smHeight> <entry>      driver.replay's skip rule                     → skip | feed
   ract <action>*                 execute(isReplaying=true, actions)            → <committed 0|1> <effect>*
   close                          regular stop (Close flushes the pending batch)   → flush
+  stop <k> <closeOK 0|1>         the k-th effect (counted like `crash`) of this epoch fails (Flush error / commit refused):
+                                 nothing further is performed, Close flushes (closeOK = 1)
+                                                                → <effect>* (what the stopped process performed)
   state                                                                       → chain=… pruned=… pending=<n> live=<entry,…|->
   env <me> <pmul> <powers,…> <tbl,…>   validator set / proposer table / node (addresses are index+1)  → ok
   boot <h>                       create the state machine (C12's transcription of juno's) at height h → ok
@@ -26,10 +32,25 @@ Requests (numbers decimal; `nil` is the nil id):
                                                                 → skip | <committed 0|1> <effect>* | <action>*
   push / pop                     save / restore the whole model state (to explore several crash
                                  points of the same history)                   → ok
+  env … sync                     (6th word) sync mode: the pseudo-sender of consensus/sync has the total voting
+                                 power, and TriggerSync actions are EXECUTED (ModelSync.lean: `listenStep`,
+                                 `replayStepX`); `in` / `rin` then answer
+                                   <committed 0|1> <effect>* | <action>* | <height of a fetch launched>* lq=<lastQuorum>
+  xpseudo                        listen: a gossiped message carrying the pseudo-sender (dropped)   → as `in`
+  xerr                           listen: the block fetcher reported an error (re-arms the fetch, re-executes
+                                 the previous actions)                                             → as `in`
+  xblock <p-entry> <c-entry>*    listen: a fetched block: ProcessSync(proposal, precommits)        → as `in`
+  variant fetch-error-resets-actions <0|1>   0 = the code as it is (`listenStep`: the previous actions are executed
+                                 again after a failed fetch), 1 = `listenStepReset`                → ok
+  variant timeout-inert <0|1>    which variant of the state machine the model machine is: 0 = the code
+                                 as it is (`tmMachineL`: ProcessTimeout runs the rules also for a timeout it
+                                 ignores), 1 = with proposed-fixes/C13-ignored-timeout-runs-rules.diff
+                                 (`tmMachineT`). The harness probes the real machine and says which.  → ok
 Tokens:
   entry   s:<h> | p:<h>:<r>:<sender>:<vr>:<v> | v:<h>:<r>:<sender>:<id> | c:<h>:<r>:<sender>:<id> | t:<step>:<h>:<r>
   action  W/<entry> | BP:<h>:<r>:<vr>:<v> | BV:<h>:<r>:<id> | BC:<h>:<r>:<id> | ST:<step>:<h>:<r> | CM:<h>:<v> | TS:<s>:<e>
-  effect  flush | append/<entry> | sp:… | sv:… | sc:… | timer:<step>:<r> | deliver:<h>:<v> | prune:<h> | sync:<s>:<e>
+  effect  flush | flush0 (a flush with nothing pending) | append/<entry> | sp:… | sv:… | sc:… | timer:<step>:<r> |
+          deliver:<h>:<v> | prune:<h> | sync:<s>:<e>
 -/
 open Juno.Proto Juno.C13
 
@@ -80,6 +101,38 @@ def showEffect : Effect → String
   | .prune h => s!"prune:{h}"
   | .sync a b => s!"sync:{a}:{b}"
 
+/-- Effects as tokens, from node `n` on. A `Flush` with nothing pending is rendered `flush0`: it has
+no consequence (walstore returns at once), and the harness compares modulo such flushes — a driver
+that skips them, or adds one, behaves the same. -/
+def showEffectsFrom (n : Node) : List Effect → List String
+  | [] => []
+  | e :: rest =>
+    (match e with
+     | .flush => if n.store.pending.isEmpty then "flush0" else "flush"
+     | _ => showEffect e) :: showEffectsFrom (applyEffect n e) rest
+
+/-- Effects that are not counted in crash / fault positions: a flush with nothing pending, and the
+`sync` marker (`driver.triggerSync` has no sink of its own in the harness). -/
+def isNoopFlush (n : Node) : Effect → Bool
+  | .flush => n.store.pending.isEmpty
+  | .sync .. => true
+  | _ => false
+
+/-- The prefix of `es` with `c` effects that are not no-op flushes (no-op flushes behind it included:
+they change nothing). Crash points and fault positions are counted this way, so that they mean the
+same for a driver that performs no-op flushes and for one that does not. -/
+def takeCanon (n : Node) : Nat → List Effect → List Effect
+  | _, [] => []
+  | c, e :: rest =>
+    if isNoopFlush n e then e :: takeCanon (applyEffect n e) c rest
+    else match c with
+      | 0 => []
+      | c + 1 => e :: takeCanon (applyEffect n e) c rest
+
+def countCanon (n : Node) : List Effect → Nat
+  | [] => 0
+  | e :: rest => (if isNoopFlush n e then 0 else 1) + countCanon (applyEffect n e) rest
+
 def showEntries (l : List Entry) : String :=
   if l.isEmpty then "-" else ",".intercalate (l.map showEntry)
 
@@ -89,6 +142,7 @@ structure EnvCfg where
   pmul : Nat := 0
   powers : List Nat := [1]
   tbl : List Nat := [1]
+  sync : Bool := false
   deriving Inhabited
 
 /-- The harness' replay-stable value source: the `k`-th `Value()` call at height `h`. -/
@@ -103,13 +157,20 @@ structure DS where
   ecfg : EnvCfg := {}
   mach : Option Juno.C12.Machine := none
   kAtHeight : Nat := 0   -- Value() calls at the machine's current height so far
+  tInert : Bool := false -- model machine variant: an ignored timeout does nothing (F5 fixed)
+  errReset : Bool := false -- sync mode variant: `actions = nil` after a failed fetch
+  drv : Drv := {}        -- sync mode: the driver's own `lastQuorum`
+  last : List Action := []  -- sync mode: the loop variable `actions` of `listen`
   deriving Inhabited
 
 /-- `Env` of C12's model for the next step: validators from the configuration; `appValue c` is what
 the `c`-th call (global counter of the model machine) returns = the next values of this height. -/
 def mkEnvBase (c : EnvCfg) (app : Nat → Nat) : Juno.C12.Env :=
   { totalPower := fun _ => c.powers.foldl (· + ·) 0,
-    power := fun _ a => if a == 0 then 0 else (c.powers[a - 1]?).getD 0,
+    power := fun _ a =>
+      -- consensus/sync.SyncProtocolPrecommitSender = 2^64 - 1 carries the total voting power
+      if c.sync && a == 18446744073709551615 then c.powers.foldl (· + ·) 0
+      else if a == 0 then 0 else (c.powers[a - 1]?).getD 0,
     proposer := fun h r =>
       let n := c.tbl.length
       if n == 0 then 0 else
@@ -141,7 +202,7 @@ def machStep (replaying : Bool) (s : DS) (i : Input) : DS × String :=
   | none => (s, "bad-op")
   | some m =>
     let env := mkEnv s.ecfg m s.kAtHeight
-    let M := tmMachine env s.ecfg.me
+    let M := if s.tInert then tmMachineT env s.ecfg.me else tmMachineL env s.ecfg.me
     let r := M.step m i
     let m' := r.1
     let k' := if m'.state.height == m.state.height then s.kAtHeight + (m'.valueCalls - m.valueCalls) else 0
@@ -149,7 +210,47 @@ def machStep (replaying : Bool) (s : DS) (i : Input) : DS × String :=
     let effs := effectsOf replaying (acts.filter (fun a => !isSync a))
     let flag := if committed acts then "1" else "0"
     ({ s with trace := s.trace ++ effs, cur := applyEffects s.cur effs, mach := some m', kAtHeight := k' },
-      " ".intercalate (flag :: effs.map showEffect) ++ " | " ++ " ".intercalate (acts.map showAction))
+      " ".intercalate (flag :: showEffectsFrom s.cur effs) ++ " | " ++ " ".intercalate (acts.map showAction))
+
+def showX (s : DS) (acts : List Action) (xs : List XEffect) (lq : Nat) : String :=
+  let effs := baseOf xs
+  let flag := if committed acts then "1" else "0"
+  " ".intercalate (flag :: showEffectsFrom s.cur effs) ++ " | " ++ " ".intercalate (acts.map showAction) ++
+    " | " ++ " ".intercalate ((fetchesOf xs).map toString ++ [s!"lq={lq}"])
+
+/-- Sync mode: one turn of `listen` (ModelSync.`listenStep`) on the model machine. -/
+def listenX (s : DS) (li : LInput) : DS × String :=
+  match s.mach with
+  | none => (s, "bad-op")
+  | some m =>
+    let env := mkEnv s.ecfg m s.kAtHeight
+    let M := if s.tInert then tmMachineT env s.ecfg.me else tmMachineL env s.ecfg.me
+    let r := if s.errReset then listenStepReset M { s := m, d := s.drv, last := s.last } li
+             else listenStep M { s := m, d := s.drv, last := s.last } li
+    let m' := r.1.s
+    let k' := if m'.state.height == m.state.height then s.kAtHeight + (m'.valueCalls - m.valueCalls) else 0
+    let effs := baseOf r.2
+    let acts := match li with
+      | .pseudo => []
+      | _ => r.1.last
+    ({ s with trace := s.trace ++ effs, cur := applyEffects s.cur effs, mach := some m', kAtHeight := k',
+              drv := r.1.d, last := r.1.last },
+      showX s acts r.2 r.1.d.lastQuorum)
+
+/-- Sync mode: one entry of `driver.replay` (ModelSync.`replayStepX`; the skip rule is applied by the caller). -/
+def replayX (s : DS) (e : Entry) : DS × String :=
+  match s.mach with
+  | none => (s, "bad-op")
+  | some m =>
+    let env := mkEnv s.ecfg m s.kAtHeight
+    let M := if s.tInert then tmMachineT env s.ecfg.me else tmMachineL env s.ecfg.me
+    let r := replayStepX M m s.drv e
+    let m' := r.1
+    let k' := if m'.state.height == m.state.height then s.kAtHeight + (m'.valueCalls - m.valueCalls) else 0
+    let effs := baseOf r.2.2
+    let acts := (replayStep M m e).2
+    ({ s with trace := s.trace ++ effs, cur := applyEffects s.cur effs, mach := some m', kAtHeight := k', drv := r.2.1 },
+      showX s acts r.2.2 r.2.1.lastQuorum)
 
 def parseNats (s : String) : Option (List Nat) := (s.splitOn ",").mapM String.toNat?
 
@@ -166,7 +267,7 @@ def runActs (replaying : Bool) (s : DS) (ws : List String) : DS × String :=
     let effs := effectsOf replaying acts
     let flag := if committed acts then "1" else "0"
     ({ s with trace := s.trace ++ effs, cur := applyEffects s.cur effs },
-      " ".intercalate (flag :: effs.map showEffect))
+      " ".intercalate (flag :: showEffectsFrom s.cur effs))
 
 def step1 (s : DS) (line : String) : DS × String :=
   match words line with
@@ -178,31 +279,58 @@ def step1 (s : DS) (line : String) : DS × String :=
   | "ract" :: ws => runActs true s ws
   | ["env", me, pmul, powers, tbl] =>
     match me.toNat?, pmul.toNat?, parseNats powers, parseNats tbl with
-    | some me, some pmul, some powers, some tbl => ({ s with ecfg := ⟨me, pmul, powers, tbl⟩ }, "ok")
+    | some me, some pmul, some powers, some tbl => ({ s with ecfg := ⟨me, pmul, powers, tbl, false⟩ }, "ok")
     | _, _, _, _ => (s, "bad-op")
+  | ["env", me, pmul, powers, tbl, "sync"] =>
+    match me.toNat?, pmul.toNat?, parseNats powers, parseNats tbl with
+    | some me, some pmul, some powers, some tbl => ({ s with ecfg := ⟨me, pmul, powers, tbl, true⟩ }, "ok")
+    | _, _, _, _ => (s, "bad-op")
+  | ["xpseudo"] => if s.ecfg.sync then listenX s .pseudo else (s, "bad-op")
+  | ["xerr"] => if s.ecfg.sync then listenX s .syncErr else (s, "bad-op")
+  | "xblock" :: toks =>
+    match toks.mapM parseEntry? with
+    | some (e :: es) => if s.ecfg.sync then listenX s (.syncBlock ((e :: es).map Entry.toInput)) else (s, "bad-op")
+    | _ => (s, "bad-op")
+  | ["variant", "timeout-inert", b] =>
+    if b == "1" then ({ s with tInert := true }, "ok")
+    else if b == "0" then ({ s with tInert := false }, "ok")
+    else (s, "bad-op")
+  | ["variant", "fetch-error-resets-actions", b] =>
+    if b == "1" then ({ s with errReset := true }, "ok")
+    else if b == "0" then ({ s with errReset := false }, "ok")
+    else (s, "bad-op")
   | ["boot", h] =>
     match h.toNat? with
     | some h =>
       ({ s with mach := some (Juno.C12.Machine.new (mkEnvBase s.ecfg (fun _ => 0)) s.ecfg.me h),
-                kAtHeight := 0 }, "ok")
+                kAtHeight := 0, drv := {}, last := [] }, "ok")
     | none => (s, "bad-op")
   | ["in", tok] =>
     match parseInput? tok with
-    | some i => machStep false s i
+    | some i => if s.ecfg.sync then listenX s (.msg i) else machStep false s i
     | none => (s, "bad-op")
   | ["rin", tok] =>
     match parseEntry? tok, s.mach with
     | some e, some m =>
-      if skipOnReplay m.state.height e then (s, "skip") else machStep true s e.toInput
+      if skipOnReplay m.state.height e then (s, "skip")
+      else if s.ecfg.sync then replayX s e else machStep true s e.toInput
     | _, _ => (s, "bad-op")
   | ["close"] =>
     -- regular stop: `Run`'s deferred `db.Close()` flushes what is pending
     ({ s with trace := s.trace ++ [Effect.flush], cur := applyEffects s.cur [Effect.flush] }, "flush")
-  | ["crash", k] =>
+  | ["stop", k, c] =>
     match k.toNat? with
     | some k =>
-      if k > s.trace.length then (s, "bad-op") else
-      let n := (applyEffects s.base (s.trace.take k)).crash
+      if k > countCanon s.base s.trace || (c != "0" && c != "1") then (s, "bad-op") else
+      let tr := stopTrace s.trace (takeCanon s.base k s.trace).length (c == "1")
+      ({ s with trace := tr, cur := applyEffects s.base tr }, " ".intercalate (showEffectsFrom s.base tr))
+    | none => (s, "bad-op")
+  | ["crash", k] =>
+    let kk : Option Nat := if k == "all" then some (countCanon s.base s.trace) else k.toNat?
+    match kk with
+    | some k =>
+      if k > countCanon s.base s.trace then (s, "bad-op") else
+      let n := (applyEffects s.base (takeCanon s.base k s.trace)).crash
       ({ s with base := n, trace := [], cur := n, mach := none },
         s!"h={n.chainHeight + 1} pruned={n.store.pruned} log={showEntries n.store.load}")
     | none => (s, "bad-op")
